@@ -109,13 +109,120 @@ def _design_check(a):
     return True, {"H": H, "nbh": ghe.nbh, "excess": excess}
 
 
+_DESIGN_CASES = [
+    # the outcomes C12 quantifies over come first: clamped at minimum, clamped at maximum / unmet-but-continued, bracketed root
+    {"kind": "constant", "scale": 1.0e2, "cont": True, "length": 12.0, "months": 12},
+    {"kind": "constant", "scale": 1.0e6, "cont": True, "length": 12.0, "months": 12},
+    {"kind": "balanced", "scale": 2.0e4, "cont": False, "length": 12.0, "months": 12},
+    {"kind": "heating", "scale": 1.2e4, "cont": False, "length": 18.0, "months": 18, "flow_type": "system"},
+    {"kind": "cooling", "scale": 3.0e4, "cont": False, "length": 18.0, "months": 24, "geom": "rectangle"},
+    {"kind": "constant", "scale": 1.0e6, "cont": True, "length": 18.0, "months": 12, "cap": 5},
+]
+_design_counter = [0]
+
+
 def _design_gen(rng):
+    k = _design_counter[0]
+    _design_counter[0] += 1
+    if k < len(_DESIGN_CASES):
+        return dict(_DESIGN_CASES[k])
     kind = rng.choice(["heating", "cooling", "balanced", "constant"])
     scale = rng.choice([1.0e2, 5.0e3, 2.0e4, 6.0e4, 1.5e5, 1.0e6])
     return {"kind": kind, "scale": scale, "phase": rng.randrange(0, 365, 30), "cont": scale in (1.0e2, 1.0e6) or rng.random() < 0.3,
-            "length": rng.choice([12.0, 24.0, 30.0]), "months": rng.choice([12, 18, 24, 36]), "flow_type": rng.choice(["borehole", "system"]),
+            "length": rng.choice([12.0, 18.0, 24.0]), "months": rng.choice([12, 18, 24, 36]), "flow_type": rng.choice(["borehole", "system"]),
             "geom": rng.choice(["near_square", "rectangle"])}
 
 
 native(f"{G}:GHE.size", _design_check, _design_gen, None,
        bound="real GHEManager.find_design on synthetic profiles (4 shapes x 6 magnitudes from negligible to far beyond capacity), near-square/rectangle lots, 12..36 months")
+
+
+# ---- real HybridLoad objects (C07: durations, two-day windows, duration definition; C08: axis) ----------------------
+def _hybrid_real_check(a):
+    import numpy as np
+
+    from ghedesigner.constants import TWO_PI
+    from ghedesigner.enums import FlowConfigType, TimestepType
+    from ghedesigner.search_routines import Bisection1D
+
+    g = build_manager({**a, "length": 12.0})
+    d = g._design
+    n = a.get("n", 4)
+    coords = [(float(i % 2) * 6.0, float(i // 2) * 6.0) for i in range(n)]
+    s = Bisection1D([coords], ["f"], a.get("flow", 0.3), d.borehole, d.bhe_type, d.fluid, d.pipe, d.grout, d.soil, d.sim_params,
+                    d.hourly_extraction_ground_loads, method=TimestepType.HYBRID, flow_type=FlowConfigType.BOREHOLE, search=False)
+    hl = s.ghe.hybrid_load
+    raw = d.hourly_extraction_ground_loads
+    rej = [abs(x) / 1000.0 if x < 0 else 0.0 for x in raw]
+    ext = [x / 1000.0 if x >= 0 else 0.0 for x in raw]
+    cum = [0]
+    for dd in [31, 28, 31, 30, 31, 30, 31, 31, 30, 31, 30, 31]:
+        cum.append(cum[-1] + 24 * dd)
+    rn = hl.radial_numerical
+    g_sts = rn.g_sts
+    ts = rn.t_s
+    two_pi_k = TWO_PI * hl.bhe.soil.k
+    rb = hl.bhe.calc_effective_borehole_resistance()
+
+    def response(q):
+        out = [0.0]
+        for nn in range(1, 49):
+            acc = 0.0
+            for j in range(1, nn + 1):
+                acc += (q[j] - q[j - 1]) / two_pi_k * float(g_sts(np.log(((nn - (j - 1)) * 3600.0) / ts)))
+            out.append(acc + q[nn] * rb)
+        return out
+
+    for m in range(1, 13):
+        for src, peaks, avgs, days, durs, two in ((rej, hl.monthly_peak_cl, hl.monthly_avg_cl, hl.monthly_peak_cl_day, hl.monthly_peak_cl_duration, hl.two_day_hourly_peak_cl_loads),
+                                                   (ext, hl.monthly_peak_hl, hl.monthly_avg_hl, hl.monthly_peak_hl_day, hl.monthly_peak_hl_duration, hl.two_day_hourly_peak_hl_loads)):
+            month = src[cum[m - 1]:cum[m]]
+            if abs(peaks[m] - max(month)) > 1e-12 or days[m] != month.index(max(month)) // 24:
+                return False, {"why": f"month {m}: peak / peak day wrong"}
+            start = cum[m - 1] + 24 * (days[m] - 1)
+            want = [src[(start + k) % 8760] for k in range(48)]
+            if list(two[m]) != want:
+                return False, {"why": f"month {m}: two-day window is not the day before the peak day plus the peak day"}
+            dur = durs[m]
+            if peaks[m] == 0:
+                if dur != 1.0e-6:
+                    return False, {"why": f"month {m}: zero peak but duration {dur}"}
+                continue
+            if not (0 < dur <= 48.0 + 1e-9):
+                sig = "duration-out-of-range"
+                if days[m] == 0 and max(want) - peaks[m] >= 0.1:
+                    sig += "/peak-on-first-day-and-higher-load-of-previous-month-in-window"
+                return False, {"why": f"month {m}: peak duration {dur} outside (0, 48]", "signature": sig, "month_peak": peaks[m], "window_max": max(want)}
+            # duration definition (Cullin & Spitler): constant (peak-avg) load reaches the max response of the peak-scaled two-day profile
+            # the scaling load is the largest load of the window (the month's peak, or a higher load of the previous month
+            # when the peak day is the first of the month) - the tool's documented reading of 'peak-scaled'
+            peak = max(peaks[m], max(want))
+            q_peak = [0.0] + [peak - avgs[m]] * 48
+            q_nom = [0.0] + [(want[k - 1] - avgs[m]) / peak * want[k - 1] for k in range(1, 49)]
+            r_peak, r_nom = response(q_peak), response(q_nom)
+            target = max(r_nom)
+            if target <= 0:
+                if dur != 1.0e-6:
+                    return False, {"why": f"month {m}: non-positive nominal response but duration {dur}"}
+                continue
+            # invert the (monotone) peak response by linear interpolation, as the documented method does
+            k = next((k for k in range(1, 49) if r_peak[k] >= target), None)
+            if k is None:
+                continue
+            want_dur = (k - 1) + (target - r_peak[k - 1]) / (r_peak[k] - r_peak[k - 1])
+            if abs(want_dur - dur) > 1e-6 * max(1.0, want_dur):
+                return False, {"why": f"month {m}: duration {dur} differs from the Cullin-Spitler definition {want_dur}"}
+    hour = [float(x) for x in hl.hour]
+    if hour[0] != 0 or hour[-1] != 8760 * (hl.end_month // 12) + cum[hl.end_month % 12]:
+        return False, {"why": "time axis does not cover the horizon", "last": hour[-1]}
+    return True, {"durations": [round(float(x), 3) for x in hl.monthly_peak_cl_duration[1:]]}
+
+
+def _hybrid_real_gen(rng):
+    return {"kind": rng.choice(["heating", "cooling", "balanced", "balanced"]), "scale": rng.choice([5.0e3, 2.0e4, 6.0e4]), "phase": rng.randrange(0, 365, 15),
+            "spike": rng.choice([0.0, 0.5, 3.0]), "months": rng.choice([12, 18, 36]), "k_soil": rng.choice([1.0, 2.0, 3.5]), "k_grout": rng.choice([0.8, 1.0, 2.0]),
+            "pipe": rng.choice(["single", "double_parallel", "coaxial"]), "n": rng.choice([1, 4])}
+
+
+native("ghedesigner.ground_loads:HybridLoad.find_peak_durations", _hybrid_real_check, _hybrid_real_gen, None,
+       bound="real HybridLoad objects: 4 profile shapes x 3 magnitudes x spikes x 3 pipe types x soil/grout conductivities; peaks, two-day windows, durations in (0,48], duration definition recomputed independently")
